@@ -103,6 +103,79 @@ theorem included_fee_le_max_partial (rules : Rules) (h : Handler) (prices : List
   subst hfee; subst hunits
   exact ⟨hpre, hu, hdot, hlt, bal, hb, hle, hbal, hother⟩
 
+/-! ## only transactions that are in the block are charged -/
+
+/-- **C07 (skip)** a transaction the builder does not append to the block — `PreExecute` or
+`Execute` failed, or it executed but `feeManager.Consume` found no room for its units — leaves
+the built state (block diff over parent) and the consumed units exactly as they were: its fee
+deduction is never merged into the block. -/
+theorem skipped_tx_not_charged (rules : Rules) (h : Handler) (prices : List Nat) (now : Int)
+    (maxUnits : List Nat) (p : (Key → Nat) × Tx) (s : Block × List Nat)
+    (hskip : (builderStep rules h prices now maxUnits p s).2 = none) :
+    (builderStep rules h prices now maxUnits p s).1 = s := by
+  unfold builderStep at hskip ⊢
+  split
+  · rename_i cur' res hp
+    rw [hp] at hskip
+    simp only at hskip
+    split
+    · rename_i c' hc; rw [hc] at hskip; simp at hskip
+    · rfl
+  · rfl
+
+/-- an appended transaction is committed exactly once, with the state its execution left, and
+its units fit the block -/
+theorem included_tx_committed (rules : Rules) (h : Handler) (prices : List Nat) (now : Int)
+    (maxUnits : List Nat) (p : (Key → Nat) × Tx) (s : Block × List Nat) (res : Result)
+    (hinc : (builderStep rules h prices now maxUnits p s).2 = some res) :
+    ∃ cur' c', processTx rules h prices now p.1 p.2 s.1.visible = (cur', .done res) ∧
+      consume s.2 res.units maxUnits = some c' ∧
+      (builderStep rules h prices now maxUnits p s).1 = (s.1.commit cur', c') ∧
+      (builderStep rules h prices now maxUnits p s).1.1.visible = cur' := by
+  unfold builderStep at hinc ⊢
+  split at hinc
+  · rename_i cur' res' hp
+    split at hinc
+    · rename_i c' hc
+      simp at hinc; subst hinc
+      refine ⟨cur', c', hp, hc, ?_, ?_⟩
+      · simp [hp, hc]
+      · simp [hp, hc, commit_visible]
+    · simp at hinc
+  · simp at hinc
+
+/-- a block in which nothing was appended has charged nobody -/
+theorem nothing_included_nothing_charged (rules : Rules) (h : Handler) (prices : List Nat) (now : Int)
+    (maxUnits : List Nat) : ∀ (txs : List ((Key → Nat) × Tx)) (s : Block × List Nat),
+    (∀ o ∈ (builderBlock rules h prices now maxUnits txs s).2, o = none) →
+    (builderBlock rules h prices now maxUnits txs s).1 = s := by
+  intro txs
+  induction txs with
+  | nil => intro s _; simp [builderBlock]
+  | cons p rest ih =>
+    intro s hall
+    simp only [builderBlock] at hall ⊢
+    have h1 : (builderStep rules h prices now maxUnits p s).2 = none := hall _ (by simp)
+    have h2 := skipped_tx_not_charged rules h prices now maxUnits p s h1
+    rw [h2] at hall ⊢
+    exact ih s (fun o ho => hall o (by simp [ho]))
+
+/-- the single-transaction decision `builderIncludes` is one `builderStep` on a fresh block -/
+theorem builderIncludes_eq_step (rules : Rules) (h : Handler) (prices : List Nat) (now : Int)
+    (scope : Key → Nat) (consumed maxUnits : List Nat) (tx : Tx) (cur : Store) :
+    builderIncludes rules h prices now scope consumed maxUnits tx cur =
+      (builderStep rules h prices now maxUnits (scope, tx) ({ parent := cur }, consumed)).2 := by
+  have hv : ({ parent := cur } : Block).visible = cur := by funext k; simp [Block.visible]
+  unfold builderIncludes builderStep
+  rw [hv]
+  rcases processTx rules h prices now scope tx cur with ⟨c', o⟩
+  cases o with
+  | done res =>
+    simp only
+    cases consume consumed res.units maxUnits <;> simp
+  | preErr e => rfl
+  | execErr e => rfl
+
 /-- admission never looks at `maxFee` either: two transactions that differ only in `maxFee`
 are admitted alike. -/
 theorem admission_ignores_maxfee (rules : Rules) (h : Handler) (prices : List Nat) (now : Int)
